@@ -227,4 +227,67 @@ theorem frame : ∀ (p : Prog) (st : St) (top base : List Frame), st.stack = top
               simp only [List.cons_append, List.cons.injEq] at ht
               exact ihk (setStack (exec body (pushRef st1 r)).st rest) top2 base ht.2 (by omega)
 
+/-- programs that manage the stack through `Context` only never dip below and end at their entry depth -/
+theorem ctxOnly_balanced : ∀ (p : Prog) (st : St), ctxOnly p = true →
+    (exec p st).low = depth st ∧ depth (exec p st).st = depth st := by
+  intro p
+  induction p with
+  | done => intro st _; simp [exec]
+  | raise t => intro st _; simp [exec]
+  | push s k _ => intro st h; simp [ctxOnly] at h
+  | pop k _ => intro st h; simp [ctxOnly] at h
+  | draw req k ih =>
+    intro st h
+    simp only [ctxOnly] at h
+    unfold exec
+    cases hs : st.stack with
+    | nil => simp
+    | cons f rest =>
+      simp only
+      have := ih (drawSt st f rest req) h
+      simp only [depth, drawSt_stack, List.length_cons, hs] at this ⊢
+      exact this
+  | spawn n k ih =>
+    intro st h
+    simp only [ctxOnly] at h
+    unfold exec
+    cases hs : st.stack with
+    | nil => simp
+    | cons f rest =>
+      simp only
+      have := ih (spawnSt st f n) h
+      simp only [depth, spawnSt_stack, hs] at this ⊢
+      exact this
+  | ctx s body k ihb ihk =>
+    intro st h
+    simp only [ctxOnly, Bool.and_eq_true] at h
+    unfold exec
+    cases hr : resolve st s with
+    | none => simp
+    | some pr =>
+      obtain ⟨st1, r⟩ := pr
+      simp only
+      have hb := ihb (pushRef st1 r) h.1
+      rw [depth_pushRef] at hb
+      have hst : depth st1 = depth st := by simp [depth, (resolve_stack hr).1]
+      cases hs : (exec body (pushRef st1 r)).st.stack with
+      | nil => simp [depth, hs] at hb
+      | cons f rest =>
+        have hrl : rest.length = depth st1 := by
+          have := hb.2; simp only [depth, hs, List.length_cons] at this; simp only [depth]; omega
+        have hne : ¬ (rest.length ≠ depth st1) := by simp [hrl]
+        simp only
+        rw [if_neg hne]
+        cases ho : (exec body (pushRef st1 r)).out with
+        | exc e =>
+          simp only [depth, setStack_stack]
+          simp only [depth] at hrl hst hb
+          exact ⟨by omega, by omega⟩
+        | ok =>
+          simp only
+          have hk := ihk (setStack (exec body (pushRef st1 r)).st rest) h.2
+          simp only [depth, setStack_stack] at hk hrl hst hb ⊢
+          exact ⟨by omega, by omega⟩
+
+
 end NiftyVerif.Rng
